@@ -198,7 +198,7 @@ def c30_task(t):
             seen_hang_classes[cls] = seen_hang_classes.get(cls, 0) + 1
             r2 = runner.fresh_run(script, timeout=30)
             if r2.timeout:
-                rec = {'logic': fam.logic, 'family': famname, 'options': sorted(opts), 'symptom': 'divergence', 'input_class': 'history_with_push' if (what == 'hist' and 'push' in it) else ('history' if what == 'hist' else 'single_query'),
+                rec = {'logic': fam.logic, 'family': famname, 'options': sorted(opts), 'engine': S.engine_of(opts), 'symptom': 'divergence', 'input_class': 'history_with_push' if (what == 'hist' and 'push' in it) else ('history' if what == 'hist' else 'single_query'),
                        'what': 'check-sat did not return within 30 s in a fresh process (typical run time: 0.1 ms)'}
                 res['violations'].append((rec, script, 'smt2'))
             else:
@@ -257,7 +257,7 @@ def c30_dl_task(t):
         hangs[cls] = hangs.get(cls, 0) + 1
         r2 = runner.fresh_run(script, timeout=30)
         if r2.timeout:
-            rec = {'logic': fam.logic, 'family': famname, 'options': [o] if o else [], 'symptom': 'divergence', 'input_class': 'difference_cycle_' + mode,
+            rec = {'logic': fam.logic, 'family': famname, 'options': [o] if o else [], 'engine': S.engine_of((o,)), 'symptom': 'divergence', 'input_class': 'difference_cycle_' + mode,
                    'what': 'check-sat did not return within 30 s in a fresh process on three difference constraints %s' % A}
             res['violations'].append((rec, script, 'smt2'))
         else:
